@@ -219,14 +219,17 @@ inductive Data (C : Type) where
   | text (c : C)
   | path (p : String)
   | many (ps : List String)
+  /-- an object with a method `write(filepath)` that writes the content `c` -/
+  | writer (c : C)
 
 /-- a value `(data, context)`: `name` = `context["name"]`, `out` = `context["output"]`,
-`group` = the `output` parts of `context["group"]` (`none`: not a group) -/
+`group` = the `output` parts of `context["group"]` (`none`: not a group), `noWrite` = `context.output.write is False` -/
 structure Val (C : Type) where
   data : Data C
   name : Option String
   out : OutCtx
   group : Option (List OutCtx)
+  noWrite : Bool := false
 
 /-! ## `Write.run` (`lena/output/write.py:197-284`) -/
 
@@ -258,27 +261,36 @@ def writeCore {C : Type} [DecidableEq C] (mode : WMode) (p : String) (c : C) (w 
       else (w, some (chg.getD false))
   | none => (w.put p c (.write p), chg)
 
-/-- the body of the loop of `Write.run` for one value whose data is a string -/
+/-- the body of the loop of `Write.run` for one value.  `is_writable` (lines 182-195): not if
+`context.output.write is False`, not if the data is neither a string nor an object with a `write` method; such
+values pass unchanged.  An object with a `write` method writes itself and `output.changed` is always `True`
+(lines 232-242). -/
 def writeVal {C : Type} [DecidableEq C] (conv : Conv C) (outdir : String) (mode : WMode) (w : World C) (v : Val C) :
     Except Exc (World C × Val C) :=
-  match v.data with
-  | .many _ => .ok (w, v)                -- not a string and no `write` method: passes unchanged
-  | d =>
-    match wMakeFilename outdir "output" v.out with
-    | .error e => .error e
-    | .ok (_, fname, fext, fpath) =>
-      let same := match d with
-        | .path p => p == fpath
-        | _ => false
-      if same then .ok (w, v)            -- written by another Write: skipped
-      else
-        let c := match d with
-          | .text c => c
-          | .path p => conv.pathText p
-          | .many _ => conv.pathText ""
-        let o := { v.out with filename := some fname, fileext := some fext, filepath := some fpath }
-        let r := writeCore mode fpath c w o.changed
-        .ok (r.1, { v with data := .path fpath, out := { o with changed := r.2 } })
+  if v.noWrite then .ok (w, v)
+  else
+    match v.data with
+    | .many _ => .ok (w, v)                -- not a string and no `write` method: passes unchanged
+    | d =>
+      match wMakeFilename outdir "output" v.out with
+      | .error e => .error e
+      | .ok (_, fname, fext, fpath) =>
+        let same := match d with
+          | .path p => p == fpath
+          | _ => false
+        if same then .ok (w, v)            -- written by another Write: skipped
+        else
+          let o := { v.out with filename := some fname, fileext := some fext, filepath := some fpath }
+          match d with
+          | .writer c =>
+            .ok (w.put fpath c (.write fpath), { v with data := .path fpath, out := { o with changed := some true } })
+          | _ =>
+            let c := match d with
+              | .text c => c
+              | .path p => conv.pathText p
+              | _ => conv.pathText ""
+            let r := writeCore mode fpath c w o.changed
+            .ok (r.1, { v with data := .path fpath, out := { o with changed := r.2 } })
 
 /-! ## `ToCSV.run`, `MakeFilename.__call__`, `RenderLaTeX.run` on one value -/
 
